@@ -50,6 +50,28 @@ impl Attributes {
         self.attributes.iter_mut()
     }
 
+    /// Returns a mutable reference to the first token of the first attribute,
+    /// creating it if missing. Returns `None` when there is no attribute.
+    pub fn mutate_first_token(&mut self) -> Option<&mut Token> {
+        self.attributes
+            .first_mut()
+            .map(|attribute| match attribute {
+                Attribute::Name(named) => {
+                    named.token.get_or_insert_with(|| Token::from_content("@"))
+                }
+                Attribute::Group(group) => {
+                    &mut group
+                        .tokens
+                        .get_or_insert_with(|| AttributeGroupTokens {
+                            opening_attribute_list: Token::from_content("@["),
+                            closing_bracket: Token::from_content("]"),
+                            separators: Vec::new(),
+                        })
+                        .opening_attribute_list
+                }
+            })
+    }
+
     /// Clears all attributes.
     pub fn clear_attributes(&mut self) {
         self.attributes.clear();
